@@ -97,21 +97,31 @@ impl EventLog {
         stream_kind: StreamKind,
         stream_id: &str,
     ) -> io::Result<Option<u64>> {
-        #[derive(serde::Deserialize)]
-        struct Header {
-            seq: u64,
-            stream_kind: StreamKind,
-            stream_id: String,
-        }
+        self.scan_backwards(|header| {
+            (header.stream_kind == stream_kind && header.stream_id == stream_id)
+                .then_some(header.seq)
+        })
+    }
+
+    /// Stream id and seq of the last frame of the given kind in the log (scanning backwards).
+    pub fn last_frame_of_kind(&self, stream_kind: StreamKind) -> io::Result<Option<(String, u64)>> {
+        self.scan_backwards(|header| {
+            (header.stream_kind == stream_kind).then(|| (header.stream_id.clone(), header.seq))
+        })
+    }
+
+    fn scan_backwards<T>(
+        &self,
+        mut select: impl FnMut(&FrameHeader) -> Option<T>,
+    ) -> io::Result<Option<T>> {
         const CHUNK_BYTES: u64 = 64 * 1024;
 
-        let matching_seq = |line: &[u8]| -> Option<u64> {
+        let mut check = |line: &[u8]| -> Option<T> {
             if line.is_empty() {
                 return None;
             }
-            let header: Header = serde_json::from_slice(line).ok()?;
-            (header.stream_kind == stream_kind && header.stream_id == stream_id)
-                .then_some(header.seq)
+            let header: FrameHeader = serde_json::from_slice(line).ok()?;
+            select(&header)
         };
 
         // No append while scanning, so only whole lines are seen.
@@ -130,16 +140,23 @@ impl EventLog {
 
             let mut end = chunk.len();
             while let Some(nl) = chunk[..end].iter().rposition(|b| *b == b'\n') {
-                if let Some(seq) = matching_seq(&chunk[nl + 1..end]) {
-                    return Ok(Some(seq));
+                if let Some(found) = check(&chunk[nl + 1..end]) {
+                    return Ok(Some(found));
                 }
                 end = nl;
             }
             chunk.truncate(end);
             pending = chunk;
         }
-        Ok(matching_seq(&pending))
+        Ok(check(&pending))
     }
+}
+
+#[derive(serde::Deserialize)]
+struct FrameHeader {
+    seq: u64,
+    stream_kind: StreamKind,
+    stream_id: String,
 }
 
 pub fn write_snapshot(
